@@ -759,11 +759,16 @@ func TestC34(t *testing.T) {
 	r.Rule("programs of 3..8 driver steps {NewTimer/New, StopTimers, StopOthers, StopAllTimers} over 3 ids with 0..12 ms pauses against a running SimpleTimers " +
 		"(1/2/16 shards, resolution 2..5 ms); every timer has drawn intervals 1..12 ms and a per-call script {duration 0..9 ms, action from inside the callback: " +
 		"register same id / other id, stop own id, StopOthers, StopAllTimers; return keep / keep=false / error}. " +
-		"non-trivial: an id is registered again while a callback of the previous timer object under that id is in flight; distinct by program text")
-	r.Floor(40)
+		"non-trivial: an id is registered again while a callback of the previous timer object under that id is in flight; distinct by program text. " +
+		"second phase (registration storm): 2..8 goroutines each repeat a drawn pattern of 1..4 registrations {New/NewTimer, one of 1..8 shared ids, interval 1h/10min/1s/1ms/100us, " +
+		"0..2 Gosched before, 0..3 Gosched after, then nothing / StopTimers(id) / StopTimers(all ids)} 20..600 times against a loop with resolution 1ns..100us (1/2/16 shards), " +
+		"bounded by registration count, not by time; every callback start is compared with the clock read before its registration. " +
+		"non-trivial: a sentinel timer (200us, own id) saw the loop tick while the goroutines were registering; distinct by program text")
+	r.Floor(80)
 	r.Assume("one callback start after a Stop* call returned is tolerated (a run may be past its context check), none when the Stop* came from inside the timer's own callback",
 		"removals are observed through NewSimpleTimer's whenRemoved hook; timers registered through SimpleTimers.New have no hook and are only subject to clauses (a) and (c)",
-		"intervals are >= 1 ms; clock readings are monotonic and taken before registration / at callback entry / at callback exit, so lateness of the machine cannot produce a violation")
+		"intervals are >= 1 ms (program phase) / >= 100 us (storm phase); clock readings are monotonic and taken before registration / at callback entry / at callback exit, so lateness of the machine cannot produce a violation",
+		"storm phase: resolutions down to 1 ns are accepted by NewSimpleTimers (production uses 33 ms); a callback that was collected but had not started when the case was closed is not judged (a miss, never a false alarm)")
 
 	// a rapid fail file replays one phase: the storm phase marks its cases with "c34-storm"
 	replayStorm, replayProgram := false, false
@@ -789,7 +794,11 @@ func TestC34(t *testing.T) {
 	r.Checks(120, 6400)
 	r.ShrinkTime(15 * time.Second)
 
+	stormStart := time.Now()
+
 	rapid.Check(t, func(rt *rapid.T) { c34RunStorm(rt, r, c34GenStorm(rt)) })
+
+	r.Extra("storm_phase_wall_s", time.Since(stormStart).Seconds())
 }
 
 func c34ProgramCase(r *ev.Rec) func(rt *rapid.T) {
